@@ -63,12 +63,26 @@ def _enc_replay_chunk(args):
     return out
 
 
-def enc_gen_replay(rep, name, alphabet, table, maxlen, strict=True, quick=True, own=("C03",), invariants=RT_INVARIANTS):
+ENC_NARROW = [["C", "(", ")", "1", "2"], ["C", "(", ")", "1", "=C"], ["c", "1", "2", "(", ")"], ["C", "/C", "=C", "(", ")"],
+              ["C", "1", "=1", "(", ")"], ["C", "N", "(", ")", "."], ["c", "n", "1", "(", ")"], ["C", "1", "2", "3", "="]]
+
+
+def enc_narrow_deep(rep, quick, own, invariants=None, strict=True):
+    """Few tokens, long strings: every SMILES token string over 5 tokens up to 10 / 12 tokens (nested branches with
+    ring closures opened and closed at different depths, several rings on one atom, digits after branches)."""
+    alphas = [ENC_NARROW[seed() % len(ENC_NARROW)]] if quick else ENC_NARROW
+    for i, alpha in enumerate(alphas):
+        kw = {} if invariants is None else {"invariants": invariants}
+        enc_gen_replay(rep, "narrow_%d" % ENC_NARROW.index(alpha), alpha, "default", 10 if quick else 12, strict=strict, quick=quick, own=own,
+                       deep=True, **kw)
+
+
+def enc_gen_replay(rep, name, alphabet, table, maxlen, strict=True, quick=True, own=("C03",), invariants=RT_INVARIANTS, deep=False):
     """GEN -> REPLAY for the encoder: TLC enumerates every token string, emits the allowed outcomes;
     the real encoder's outcome must be in the allowed set; otherwise the round trip is judged by TraceRT."""
     results, vectors = de.run_decoder_tlc(name, alphabet, table, maxlen, emit=True, emit_name="EncEmit",
                                           spec="EncSpec", extends="EncodeCall", invariants=invariants,
-                                          fastjit=quick, strict=strict)
+                                          fastjit=quick, strict=strict, deep=deep)
     st = sum(r.distinct for r in results)
     rep.states += st
     rep.transitions += sum(r.generated for r in results)
@@ -217,6 +231,7 @@ def check_C03(tier):
         alpha = sorted(rng.sample(ENC_POOL, 11)) + [t for t in ("C", "(", ")", "1") if rng.random() < 0.7]
         enc_gen_replay(rep, "pool%d" % k, sorted(set(alpha)), "default", 4, quick=quick,
                        own=("C03", "C02", "C14", "C04", "C05", "C06", "C10"))
+    enc_narrow_deep(rep, quick, own + ("C10", "C04", "C05"))
     corpus_trace(rep, "datasets", quick, own, [relaxed_table()] + ([] if quick else ["default"]), per_file=(14 if quick else 400),
                  variants=(2 if quick else 4),
                  extra=[gs.macrocycle(k) for k in (3, 14, 15, 16, 17, 255, 256, 257, 300)] +
@@ -314,6 +329,10 @@ def check_C05(tier):
                            "c1ccc2c(c1)c1nc3nc(nc4[nH]c(nc5nc(nc2[nH]1)c1ccccc15)c1ccccc41)c1ccccc13"]:
         cages.append(s)
         cages += gs.respell(s, rng, 25 if quick else 400)
+        cages += gs.colon_spelling(s, rng, 6 if quick else 80)      # upper-case atoms with explicit ':' bonds
+    for s in ["c1ccccc1-c1ccccn1", "c1ccc(cc1)-c1ccc(cc1)-c1ccccc1", "c1ccc2c(c1)cccc2-c1ccccc1", "Cc1ccc(cc1)-c1ccco1",
+              "c1ccc(cc1)C(c1ccccc1)c1ccccc1", "O=C(c1ccccc1)c1ccncc1"]:
+        cages += gs.colon_spelling(s, rng, 25 if quick else 300) + gs.respell(s, rng, 5 if quick else 50)
     aro_pool = [t for t in ENC_POOL if t[-1:].islower() or (t.startswith("[") and t[1:2].islower()) or t in
                 ("(", ")", "1", "2", "3", "-1", ":1", "=1", "=O", "C", "N", "-c", ":c", "=c", "-n")]
     for k in range(1 if quick else 4):
@@ -711,6 +730,7 @@ def check_C10(tier):
         alpha = sorted(set(rng.sample(ENC_POOL, 11)) | {"C", "(", ")"})
         enc_gen_replay(rep, "pool%d" % k, alpha, rng.choice(["default", "octet_rule", "hypervalent"]), 4, quick=quick, own=own, invariants=inv)
     enc_gen_replay(rep, "ringbranch_default", ENC["ringbranch"], "default", n + 2, quick=quick, own=own, invariants=inv)
+    enc_narrow_deep(rep, quick, own, invariants=inv)
     enc_gen_replay(rep, "stereo_default", ENC["stereo"], "default", n - 1, quick=quick, own=own, invariants=inv)
     # equivalent spellings of an atom give the same symbol
     sf = de.selfies_mod()
